@@ -115,7 +115,7 @@ func New(prog *ssa.Program, pkg *ssa.Package, solverName string, timeoutMs int) 
 		return nil, err
 	}
 	e := &Exec{C: c, S: s, Prog: prog, Pkg: pkg, fninfo: map[*ssa.Function]*fnInfo{},
-		MaxSteps: 400000, MaxPaths: 200000,
+		MaxSteps: 400000, MaxPaths: 40000,
 		globals: map[*ssa.Global]*Ptr{}, cutsets: map[*ssa.Function]*[128]bool{},
 		rxCache: map[string]*rxProg{}, uniqCache: map[string]bool{},
 		sizes: types.SizesFor("gc", "amd64")}
